@@ -65,14 +65,18 @@ def structBody (cfg : Cfg) (env : Env) (renameAll : Option Rule) (tag : Option (
     | [f] => if f.attr.skip then some .null else tyTs cfg env f.ty
     | fs => (tupleTs cfg env fs).map .tuple
 
+/-- `StructAttr::from_variant`: the variant's own `rename_all`, else (named fields only) the enum's `rename_all_fields` -/
+def renameAllT (it : Item) (v : Variant) : Option Rule :=
+  match v.attr.renameAll with
+  | some r => some r
+  | none => if v.shape = .named then it.attr.renameAllFields else none
+
 /-- `format_variant` (types/enum.rs) -/
 def variantTs (cfg : Cfg) (env : Env) (it : Item) (v : Variant) : Option Ts :=
   let name := Derive.variantTsName cfg it.attr.renameAll v
-  let renameAll := match v.attr.renameAll with
-    | some r => some r
-    | none => if v.shape = .named then it.attr.renameAllFields else none
+  let renameAll := renameAllT it v
   let tg := if v.attr.untagged then Derive.Tagged.untagged else Derive.tagged it.attr
-  let unitLike := v.shape = .unit || (v.shape = .tuple && (match v.fields with | [f] => f.attr.skip | _ => false))
+  let unitLike := v.unitLike
   match tg with
   | .untagged => structBody cfg env renameAll none v.shape v.fields
   | .externally =>
@@ -127,14 +131,9 @@ def bodyOk (cfg : Cfg) (renameAll : Option Rule) (tag : Option Str) (shape : Sha
 def variantOk (cfg : Cfg) (it : Item) (v : Variant) : Bool :=
   !v.attr.inline && v.attr.typeAs.isNone && v.attr.typeOverride.isNone
   && Derive.variantTsName cfg it.attr.renameAll v == Serde.variantKey cfg it.attr.renameAll v
-  && (let renameAll := match v.attr.renameAll with
-        | some r => some r
-        | none => if v.shape = .named then it.attr.renameAllFields else none
-      let renameAllS := match v.attr.renameAll with
-        | some r => some r
-        | none => it.attr.renameAllFields
+  && (let renameAll := renameAllT it v
       -- serde applies rename_all_fields to every variant; it only matters for named fields
-      (v.shape != .named || renameAll == renameAllS)
+      (v.shape != .named || renameAll == Serde.renameAllS it v)
       && (match (if v.attr.untagged then Derive.Tagged.untagged else Derive.tagged it.attr) with
           | .internally t => (v.shape == .named || v.shape == .unit || (v.shape == .tuple && (match v.fields with | [f] => f.attr.skip | _ => false)))
                              && bodyOk cfg renameAll (some t) v.shape v.fields
